@@ -340,7 +340,7 @@ def gen_core_opts(rng):
 
 
 def gen_core_opts_case(rng, k, maxn):
-    c = gen_case(rng, ['core_trees', 'hubs', 'random'][k % 3], maxn)
+    c = gen_case(rng, ['core_trees', 'hubs', 'cycle'][k % 3], maxn)
     c['family'] = 'core_opts'
     c['opts'] = gen_core_opts(rng)
     return c
